@@ -119,6 +119,24 @@ func (w *World) do(st Step) bool {
 			}
 			return false
 		}
+		if st.C == "@other" {
+			// a live connection on whose behalf no request is outstanding (the first in symbol order)
+			busy := map[string]bool{}
+			for _, r := range w.mq.pendingReqs() {
+				busy[r.csym] = true
+			}
+			syms := make([]string, 0, len(w.clients))
+			for s := range w.clients {
+				syms = append(syms, s)
+			}
+			sort.Strings(syms)
+			for _, s := range syms {
+				if c := w.clients[s]; !busy[s] && !c.closed && !c.eof {
+					return w.closeClient(s)
+				}
+			}
+			return false
+		}
 		return w.closeClient(st.C)
 	case "stall":
 		return w.stall(st.C)
